@@ -74,7 +74,7 @@ func c01Shapes(cfg string, env *fw.Env, unit string, res *fw.Result) {
 		{Kind: "put", Key: big(4096), Val: "longkey"},
 	}
 	maint := []EngOp{{Kind: "flush"}, {Kind: "bg"}, {Kind: "reopen"}, {Kind: "compact"}}
-	keys := []string{}
+	keys := []string{"t1", "t2", "t3", "s"}
 	for _, s := range shapes {
 		keys = append(keys, s.Key)
 	}
@@ -84,6 +84,11 @@ func c01Shapes(cfg string, env *fw.Env, unit string, res *fw.Result) {
 		sp.Alphabet = append(append([]EngOp{}, maint...), EngOp{Kind: "put", Key: "one", Val: "y"}, EngOp{Kind: "del", Key: s.Key})
 		seqxRun(sp, []EngOp{s}, env, unit, res)
 	}
+	// a commit larger than the log's 64 KiB write buffer behind a small write, then the same continuations
+	bigBatch := EngOp{Kind: "txc", Sub: []EngOp{{Kind: "put", Key: "t1", Val: "<big:30000>"}, {Kind: "put", Key: "t2", Val: "<big:30000>"}, {Kind: "put", Key: "t3", Val: "<big:30000>"}}}
+	sp.Depth = 5
+	sp.Alphabet = append(append([]EngOp{}, maint...), EngOp{Kind: "put", Key: "one", Val: "y"}, EngOp{Kind: "del", Key: "t2"})
+	seqxRun(sp, []EngOp{{Kind: "put", Key: "s", Val: "small"}, bigBatch}, env, unit, res)
 }
 
 func init() {
@@ -91,7 +96,7 @@ func init() {
 		ID:    "C01",
 		Level: "model_checking",
 		Rule: "explicit-state search over engine programs: alphabet {put a/b/\\x00\\xff (fresh value id per write), del a/b, 3-key commit, delete+put commit, rollback, flush, bg (background flush to quiescence), reopen, compact, compact-range} on the real EngineFacade under the deterministic scheduler, all programs up to the depth per configuration (memtable size 32MiB / 1 B / 40 B, max memtables 4/2, sync immediate/none), states de-duplicated by the canonical implementation state (every layer's entries with sequence numbers, log counters, files); after each program every key is read and compared with a map model. " +
-			"Value-shape sub-run: empty, nil, 1 B, one-record, fragmented, >1 block values and a 4 KiB key followed by all maintenance sequences of length <=3. Non-trivial = programs with >=2 steps",
+			"Value-shape sub-run: empty, nil, 1 B, one-record, fragmented, >1 block values and a 4 KiB key followed by all maintenance sequences of length <=3, and a 90 KB three-entry commit behind a small put followed by the same continuations (memtable 32 MiB / 1 B, sync immediate / none / batch). Non-trivial = programs with >=2 steps",
 		Assumptions: []string{"single client; background threads run only at explicit bg steps or when the client waits for them (a legal schedule; other schedules are C06's subject)", "state key omits wall-clock derived names; virtual time makes them functions of the program"},
 		Units: func(tier string) []string {
 			var us []string
@@ -104,7 +109,7 @@ func init() {
 					us = append(us, fmt.Sprintf("prog/%s/%d/%d", cfg, depth[cfg], i))
 				}
 			}
-			for _, cfg := range []string{"big", "tiny"} {
+			for _, cfg := range []string{"big", "tiny", "bigN", "bigB"} {
 				us = append(us, "shapes/"+cfg)
 			}
 			return us
